@@ -172,12 +172,10 @@ class ColumnProfile:
         new_profile.missing += profile.missing
         new_profile.transitions += profile.transitions + 1
         new_profile.order = 0 if new_profile.order == profile.order else new_profile.order
-        new_profile.minimum = min([self.minimum or INFINITY, profile.minimum or INFINITY])
-        if new_profile.minimum == INFINITY:
-            new_profile.minimum = None
-        new_profile.maximum = max([self.maximum or -INFINITY, profile.maximum or -INFINITY])
-        if new_profile.maximum == -INFINITY:
-            new_profile.maximum = None
+        minimums = [m for m in (self.minimum, profile.minimum) if m is not None]
+        new_profile.minimum = min(minimums) if minimums else None
+        maximums = [m for m in (self.maximum, profile.maximum) if m is not None]
+        new_profile.maximum = max(maximums) if maximums else None
 
         if self.most_frequent_values and profile.most_frequent_values:
             morsel1_map = dict(zip(self.most_frequent_values, self.most_frequent_counts))
